@@ -1,7 +1,7 @@
 """Helpers of rules/c15.py and rules/c16.py (nothing of the repository is imported or run).
 
 * acquire/release pairing on a statement CFG with exception edges (manual use of a semaphore instead of `async with`)
-* an integer evaluator for weight expressions (to exhibit a concrete weight at which two expressions differ)
+* a linear normal form (with opaque `mod c` atoms for // and %) of integer weight expressions: equality and difference are decided on the forms
 * dependency closure of names (which parameters can a value depend on)
 * unrolling of comprehensions over literal tuples
 """
@@ -9,7 +9,7 @@ from __future__ import annotations
 
 import ast
 import copy
-import itertools
+from fractions import Fraction
 from typing import Callable, Dict, List, Optional, Sequence, Set, Tuple
 
 from . import pyfacts as pf
@@ -98,76 +98,72 @@ def describe_path(p: Sequence[pf.Node], k: int = 3) -> str:
 
 
 # --------------------------------------------------------------------------------------
-# integer evaluation of weight expressions
+# normal form of integer weight expressions (no evaluation: equality / difference is decided on the normal forms)
 # --------------------------------------------------------------------------------------
 
-class NotArithmetic(Exception):
-    pass
+WLin = Dict[str, Fraction]   # atom -> coefficient; the constant term under '1'; atoms are names / attribute chains and opaque `(e) mod c` terms
 
 
-def arith_atoms(e: ast.AST, out: Optional[List[str]] = None) -> List[str]:
-    """Atoms (names / attribute chains) of an integer expression built from + - * // % unary minus, int(), min, max and integer literals."""
-    out = [] if out is None else out
+def _wl_add(a: WLin, b: WLin, sign: int = 1) -> WLin:
+    out = dict(a)
+    for k, v in b.items():
+        out[k] = out.get(k, Fraction(0)) + sign * v
+    return {k: v for k, v in out.items() if v != 0}
+
+
+def wlin_str(a: WLin) -> str:
+    if not a:
+        return '0'
+    parts = []
+    for k in sorted(a, key=lambda x: (x == '1', x)):
+        v = a[k]
+        c = str(v.numerator) if v.denominator == 1 else str(v)
+        parts.append(c if k == '1' else (k if v == 1 else f'{c}*{k}'))
+    return ' + '.join(parts).replace('+ -', '- ')
+
+
+def weight_normal_form(e: ast.AST) -> Optional[WLin]:
+    """Linear normal form over integer atoms of an expression built from + - unary minus, * by a constant, int(), and // / % by a positive
+    integer constant c, using  e // c = (e - (e mod c)) / c  with `(e mod c)` an opaque atom (dropped when every coefficient of e is a
+    multiple of c, where e mod c = 0 for integer atoms).  None when e is outside this fragment.
+
+    Two expressions with EQUAL normal forms are equal for all integer values of the atoms.  Two expressions whose normal forms DIFFER are
+    different functions of their atoms: the atoms x and (.. mod c) with c >= 2 are linearly independent over the integers (x = 0 and x = c
+    fix the x-coefficient and the constant, x = 1 the mod-coefficient), so a non-zero difference form is non-zero for some weights."""
     if isinstance(e, ast.Constant) and isinstance(e.value, int) and not isinstance(e.value, bool):
-        return out
+        return {'1': Fraction(e.value)} if e.value else {}
     d = pf.dotted(e)
     if d is not None:
-        if d not in out:
-            out.append(d)
-        return out
-    if isinstance(e, ast.BinOp) and isinstance(e.op, (ast.Add, ast.Sub, ast.Mult, ast.FloorDiv, ast.Mod)):
-        arith_atoms(e.left, out)
-        arith_atoms(e.right, out)
-        return out
+        return {d: Fraction(1)}
+    if isinstance(e, ast.Call) and isinstance(e.func, ast.Name) and e.func.id == 'int' and len(e.args) == 1 and not e.keywords:
+        return weight_normal_form(e.args[0])
     if isinstance(e, ast.UnaryOp) and isinstance(e.op, (ast.USub, ast.UAdd)):
-        return arith_atoms(e.operand, out)
-    if isinstance(e, ast.Call) and isinstance(e.func, ast.Name) and e.func.id in ('int', 'min', 'max') and e.args and not e.keywords:
-        for a in e.args:
-            arith_atoms(a, out)
-        return out
-    raise NotArithmetic(pf.nsrc(e))
-
-
-def arith_eval(e: ast.AST, env: Dict[str, int]) -> int:
-    if isinstance(e, ast.Constant):
-        return int(e.value)
-    d = pf.dotted(e)
-    if d is not None:
-        return env[d]
+        a = weight_normal_form(e.operand)
+        if a is None:
+            return None
+        return {k: -v for k, v in a.items()} if isinstance(e.op, ast.USub) else a
     if isinstance(e, ast.BinOp):
-        a, b = arith_eval(e.left, env), arith_eval(e.right, env)
+        a, b = weight_normal_form(e.left), weight_normal_form(e.right)
+        if a is None or b is None:
+            return None
         if isinstance(e.op, ast.Add):
-            return a + b
+            return _wl_add(a, b)
         if isinstance(e.op, ast.Sub):
-            return a - b
+            return _wl_add(a, b, -1)
         if isinstance(e.op, ast.Mult):
-            return a * b
-        if b == 0:
-            raise ZeroDivisionError
-        return a // b if isinstance(e.op, ast.FloorDiv) else a % b
-    if isinstance(e, ast.UnaryOp):
-        v = arith_eval(e.operand, env)
-        return -v if isinstance(e.op, ast.USub) else v
-    if isinstance(e, ast.Call) and isinstance(e.func, ast.Name):
-        vals = [arith_eval(a, env) for a in e.args]
-        return {'int': lambda: vals[0], 'min': lambda: min(vals), 'max': lambda: max(vals)}[e.func.id]()
-    raise NotArithmetic(pf.nsrc(e))
-
-
-def differing_point(e1: ast.AST, e2: ast.AST, samples: Sequence[int]) -> Optional[Tuple[Dict[str, int], int, int]]:
-    """(valuation, v1, v2) at which the two integer expressions differ, None if they agree on every sample point.
-    Raises NotArithmetic when an expression is outside the evaluated fragment."""
-    atoms = arith_atoms(e2, arith_atoms(e1))
-    if len(atoms) > 3:
-        raise NotArithmetic('too many atoms')
-    for combo in itertools.product(samples, repeat=len(atoms)):
-        env = dict(zip(atoms, combo))
-        try:
-            v1, v2 = arith_eval(e1, env), arith_eval(e2, env)
-        except ZeroDivisionError:
-            continue
-        if v1 != v2:
-            return env, v1, v2
+            for x, y in ((a, b), (b, a)):
+                if set(x) <= {'1'}:
+                    c = x.get('1', Fraction(0))
+                    return {k: v * c for k, v in y.items() if v * c != 0}
+            return None
+        if isinstance(e.op, (ast.FloorDiv, ast.Mod)) and set(b) == {'1'} and b['1'].denominator == 1 and b['1'] >= 1 \
+                and all(v.denominator == 1 for v in a.values()):
+            c = b['1']
+            exact = all(v % c == 0 for v in a.values())
+            modatom = {} if exact or c == 1 else {f'(({wlin_str(a)}) mod {c.numerator})': Fraction(1)}
+            if isinstance(e.op, ast.Mod):
+                return modatom
+            return {k: v / c for k, v in _wl_add(a, modatom, -1).items()}
     return None
 
 
